@@ -165,7 +165,7 @@ PROPS = {
         "trusted_base": ["hand-written whole-program model GGV.Model.Prog, tied by the prog correspondence (real analyzers in-process vs model)", "APF extractor (go/ast + go/types, independent of gogreement)"],
     },
     "C13": {
-        "theorems": T("C13", ["classify_respects_identity", "respell_invariant", "typeInfo_norm", "varTypeInfo_norm", "typeName_norm", "paren_invariant"]),
+        "theorems": T("C13", ["classify_respects_identity", "respell_invariant", "typeInfo_norm", "varTypeInfo_norm", "typeName_norm", "paren_invariant", "respell_program_invariant"]) + ["GGV.Model.Prog.analyze_mapTy", "GGV.Model.Prog.readIgnores_mapTy"],
         "suites": [("layout", {"kind": "spelling"}), ("prog", {"impl": "1", "focus": "IMPL", "n": 60, "nocorpus": "1"})],
         "assumptions": ["type identity is modelled up to aliases (go/types' Alias / Pointer / Named structure is kept by the extractor); a renamed import changes nothing the model reads"],
         "trusted_base": ["hand-written whole-program model GGV.Model.Prog, tied by the prog correspondence (real analyzers in-process vs model)", "APF extractor (go/ast + go/types, independent of gogreement)"],
